@@ -29,6 +29,8 @@ theorem timeSites : Gen.Contract.timeSites = Model.Contract.timeSites := rfl
 theorem check_time_information (a b c d e f : Int) :
     Gen.Contract.check_time_information a b c d e f = checkTime a b c d e f := rfl
 
+theorem applyLocationOwner : Gen.Contract.applyLocationOwner = Model.Contract.applyLocationOwner := rfl
+
 /-- only the missing time arrays are inferred; a given one is passed through untouched -/
 theorem infer_time (a b c : Int) (x y z : Option Int) :
     Gen.Contract.infer_time a b c x y z =
